@@ -26,7 +26,10 @@ typedef struct { unsigned long long c, r; int op; unsigned arg, res; } Op;   /* 
 #define MAXPG 256
 static Op ops[MAXT][MAXOPS]; static int nops[MAXT];
 static unsigned long long seqc; static gmInstance parent; static gmInstance* child[MAXT];
-static int delayMode; static __thread unsigned long long rng; static __thread int tid = -1;
+/* spawns are serialised by the embedder here: every new family member re-applies the active data segment (plain stores of the same
+   bytes into guest memory), which is guest-visible data, not the descriptor */
+static pthread_mutex_t spawnMu = PTHREAD_MUTEX_INITIALIZER;
+static int delayMode, extraChildren; static __thread unsigned long long rng; static __thread int tid = -1;
 static unsigned rnd(void) { rng ^= rng << 13; rng ^= rng >> 7; rng ^= rng << 17; return (unsigned)(rng >> 32); }
 #ifdef W2C2_VERIF
 void w2c2VerifPoint(int id, long a, long b) { (void)a; (void)b;
@@ -40,7 +43,13 @@ static void* run(void* p) {
   int t = (int)(long)p; unsigned i; unsigned mine = 64u + (unsigned)t * 256u, last = 0; int stored = 0;
   unsigned observed = initPages; static __thread unsigned hval[MAXPG]; static __thread unsigned char hstate[MAXPG];  /* 0 untouched, 1 read as zero, 2 written */
   tid = t; rng = gseed * 0x9E3779B97F4A7C15ULL + ((unsigned long long)t + 1) * 0xD1B54A32D192ED03ULL; if (!rng) rng = 1;
-  for (i = 0; i < opsPer && nops[t] < MAXOPS; i++) { Op* o = &ops[t][nops[t]++]; unsigned k = rnd() % 16;
+  for (i = 0; i < opsPer && nops[t] < MAXOPS; i++) { Op* o = &ops[t][nops[t]++]; unsigned k = rnd() % 17;
+    if (k == 16) { /* 10: memory.init of 8 bytes of the passive segment into private cells, read back (arg = expected word, res = word read);
+                      every fourth time a further family member is created instead (its active segment is applied again) */
+      unsigned wa = mine + 32u;
+      if (rnd() % 4 == 0 && __atomic_load_n(&extraChildren, __ATOMIC_SEQ_CST) < 64) { wasmModuleInstance* from = (wasmModuleInstance*)child[t]; pthread_mutex_lock(&spawnMu); (void)from->newChild(from); pthread_mutex_unlock(&spawnMu); __atomic_add_fetch(&extraChildren, 1, __ATOMIC_SEQ_CST); }
+      o->op = 10; o->arg = 0x44434241u; o->c = __atomic_add_fetch(&seqc, 1, __ATOMIC_SEQ_CST); gm_init(child[t], wa, 8u); o->res = gm_load(child[t], wa); o->r = __atomic_add_fetch(&seqc, 1, __ATOMIC_SEQ_CST);
+      continue; }
     if (k >= 13) { unsigned wa = mine + 16u;
       if (k == 13) { unsigned eq = rnd() % 2, cur = gm_load(child[t], wa); o->op = 7; o->arg = eq; o->c = __atomic_add_fetch(&seqc, 1, __ATOMIC_SEQ_CST);
         o->res = gm_wait0(child[t], wa, eq ? cur : cur + 1u + rnd() % 5u); o->r = __atomic_add_fetch(&seqc, 1, __ATOMIC_SEQ_CST); if (rnd() % 3 == 0) gm_store(child[t], wa, rnd()); }
